@@ -22,6 +22,7 @@ type Solver struct {
 	Stats  *SolverStats
 	logf   *os.File
 	broken bool
+	owner  interface{} // the state whose path condition is currently asserted
 }
 
 type SolverStats struct {
